@@ -407,10 +407,14 @@ def gen_vector(rng, md, mode):
     return vec
 
 
-def gen_model(rng, allow_empty):
+def gen_model(rng, allow_empty, nest=None):
+    """nest: None = random; otherwise (where, levels): force a Model nested as a constructor argument of another
+    Model (levels 1 or 2 deep) with an assertion on the nested model / the root / both."""
     npri = rng.choice([1, 1, 2, 2, 2, 3, 3, 4, 5])
     if allow_empty and rng.random() < 0.03:
         npri = 0
+    if nest:
+        npri = max(npri, 3)
     priors = [gen_prior(rng) for _ in range(npri)]
     # slots: every prior at least once, some shared, some constants; shuffled so path order != id order
     items = [{"p": k} for k in range(npri)]
@@ -423,14 +427,32 @@ def gen_model(rng, allow_empty):
     rng.shuffle(items)
     comps, i, ci = [], 0, 0
     while i < len(items):
-        k = min(rng.randint(1, 4), len(items) - i)
+        k = min(rng.randint(1, 2 if nest else 4), len(items) - i)
         path = ["c%d" % ci] if rng.random() < 0.75 else ["sub", "d%d" % ci]
         comps.append({"path": path, "attrs": [[["a", "b", "c", "d"][j], items[i + j]] for j in range(k)]})
         i += k
         ci += 1
+    # models nested inside models: component j becomes the constructor argument m<j> of an earlier component
+    # (which may itself be nested: two and more levels); its assertions are checked when the parent instantiates it
+    nested = []
+    if len(comps) >= 2 and (nest or rng.random() < 0.3):
+        for j in range(1, len(comps)):
+            if nest and nest[1] == 2 and j == 2:
+                i = 1                                  # chain: comp 2 in comp 1 in comp 0
+            elif nest and j == 1:
+                i = 0
+            elif rng.random() < 0.5:
+                i = rng.randrange(j)
+            else:
+                continue
+            comps[j]["parent"], comps[j]["pattr"] = i, "m%d" % j
+            comps[j]["path"] = comps[i]["path"] + ["m%d" % j]
+            nested.append(j)
     asserts = []
-    if npri >= 1 and rng.random() < 0.4:
-        for _ in range(rng.choice([1, 1, 2])):
+    if nest or (npri >= 1 and rng.random() < (0.7 if nested else 0.4)):
+        wheres = {"nested": [nested[-1]], "root": [-1], "both": [nested[-1], -1]}[nest[0]] if nest else \
+            [None] * rng.choice([1, 1, 2])
+        for where in wheres:
             l = {"p": rng.randrange(npri)}
             if npri >= 2 and rng.random() < 0.7:
                 r = {"p": rng.choice([k for k in range(npri) if k != l["p"]])}
@@ -439,8 +461,9 @@ def gen_model(rng, allow_empty):
                 r = {"c": hx(inside(rng, pr))}
             # an assertion lives on the root collection or on one component model
             # an assertion lives on the root collection (-1), the intermediate collection `sub` (-2) or one component model
-            places = [-1] + list(range(len(comps))) + ([-2, -2] if any(cp["path"][0] == "sub" for cp in comps) else [])
-            asserts.append({"at": rng.choice(places), "op": rng.choice(["lt", "le", "gt", "ge"]),
+            places = [-1] + list(range(len(comps))) + ([-2, -2] if any(cp["path"][0] == "sub" for cp in comps) else []) \
+                + nested + nested
+            asserts.append({"at": rng.choice(places) if where is None else where, "op": rng.choice(["lt", "le", "gt", "ge"]),
                             "l": l, "r": r})
     return {"priors": priors, "comps": comps, "asserts": asserts}
 
@@ -474,7 +497,7 @@ WIRING = [[]]               # set by run() from the regenerated wiring table
 def gen_case(rng, forced=None):
     forced = forced or {}
     ps = forced.get("ps", rng.random() < 0.3)
-    md = gen_model(rng, allow_empty=not ps)
+    md = gen_model(rng, allow_empty=not ps, nest=forced.get("nest"))
     n = len(md["priors"])
     fl = forced.get("flags") or {"like": rng.random() < 0.5, "chi2": rng.random() < 0.5, "store": rng.random() < 0.6}
     container = rng.choice(["list", "nd"] if ps else ["list", "list", "nd", "nd", "tuple"])
@@ -585,6 +608,12 @@ def gen_cases(ctx):
         for _ in range(3 if ctx.tier != "thorough" else 12):
             cases.append(gen_case(rng, {"ps": wps, "flags": {"like": like, "chi2": chi2, "store": rng.random() < 0.5},
                                         "resample": res, "wired": f}))
+    # a Model nested as a constructor argument of a Model (one and two levels), asserted on the nested model / root / both
+    for where in ("nested", "root", "both"):
+        for levels in (1, 2):
+            for ps in (False, True):
+                for _ in range(2 if ctx.tier != "thorough" else 8):
+                    cases.append(gen_case(rng, {"ps": ps, "nest": (where, levels)}))
     # one long run: hundreds of evaluations through one fitness object
     cases.append(gen_case(rng, {"ps": False, "flags": {"like": False, "chi2": True, "store": True}, "long": True, "ctor_p": 0.0}))
     while len(cases) < n:
@@ -892,7 +921,8 @@ def run(ctx):
     ctx.rule = (
         "a case is one fitness object (Fitness or FitnessPySwarms; flags likelihood/posterior x chi-squared x history; a resample "
         "value) over a generated model (1-5 priors of four families created out of path order, shared priors, constants, nested "
-        "collections, assertions on the root or a component), a scripted likelihood of the instance (weighted sum; FitException / "
+        "collections, models nested as constructor arguments of models one and more levels deep, assertions on the root, an intermediate "
+        "collection, a component or a nested model), a scripted likelihood of the instance (weighted sum; FitException / "
         "nan rules depending on the instance; float, numpy scalar or 0-d array return) and a sequence of 1-12 operations on caller "
         "buffers (call, overwrite a buffer in place, pyswarms batch over rows of one persistent position array, pickle round trip of "
         "the fitness); buffers are lists, tuples, numpy arrays, some with int entries or one buffer of the wrong length; 6% of the cases "
@@ -998,6 +1028,9 @@ def run(ctx):
         ctx.hist("container", c["container"])
         ctx.hist("writes", sum(1 for o in c["ops"] if o[0] == "write"))
         ctx.hist("assertions", len(c["model"]["asserts"]))
+        nestedc = [j for j, cp in enumerate(c["model"]["comps"]) if cp.get("parent") is not None]
+        ctx.hist("nested-models", len(nestedc))
+        ctx.hist("assertion-on-nested-model", sum(1 for a in c["model"]["asserts"] if a["at"] in nestedc))
         ctx.hist("constructed-with-resumed-paths", bool(c.get("ctor")))
         ctx.hist("use-jax", bool(c.get("jax")))
         ctx.hist("int-entries", bool(c.get("ints")))
